@@ -389,9 +389,27 @@ func (d *c12Dag) checkIteration(n datamodel.Node, want map[string]string, wantEr
 		}
 	}
 	for k := range want {
-		if !seen[k] {
+		if !seen[k] && !d.mayRefuse {
 			viol("iterate-lost-entry", fmt.Sprintf("%s %s: entry %q is reachable without the missing shards but was not yielded", d.c, what, k))
 		}
+	}
+	if d.mayRefuse {
+		// irregular DAG: the library may add errors of its own or stop early; what
+		// it may not do is lose a load error it ran into (every injected error it
+		// reports is one of the missing shards, and when nothing of its own
+		// stopped it, it reports all of them)
+		inj, own := 0, 0
+		for _, e := range errs {
+			if store.IsInjected(e) {
+				inj++
+			} else {
+				own++
+			}
+		}
+		if inj > wantErrs || (own == 0 && inj != wantErrs) || (strings.HasPrefix(d.c.Hand, "irregular empty-child") && inj != wantErrs) {
+			viol("iterate-error-count irregular", fmt.Sprintf("%s %s: %d load errors reported (+%d other), %d missing shards are met by a full walk (%v)", d.c, what, inj, own, wantErrs, errs))
+		}
+		return
 	}
 	if len(errs) != wantErrs {
 		viol("iterate-error-count", fmt.Sprintf("%s %s: %d errors reported, %d missing shards met (%v)", d.c, what, len(errs), wantErrs, errs))
@@ -527,6 +545,12 @@ func (d *c12Dag) transient(x *xplore.Ctx, viol func(sig, detail string)) string 
 		}
 		got[p.K] = p.V
 	}
+	if d.mayRefuse {
+		// irregular DAG (the library adds errors of its own / stops early): only
+		// termination, no duplicates and no panic are required here; the static
+		// part checks that load errors are not lost
+		return fmt.Sprintf("shard(irregular) failed=%v yielded=%d errs=%d", failedAt, len(pairs), len(errs))
+	}
 	if fmt.Sprint(sortedKeys(got)) != fmt.Sprint(sortedKeys(wantEntries)) {
 		viol("iterate-entries-under-transient-fault", fmt.Sprintf("%s: loads %v failed; yielded %v, reachable %v", d.c, failedAt, sortedKeys(got), sortedKeys(wantEntries)))
 	}
@@ -555,6 +579,11 @@ func runC12(r *core.Run) {
 	// FileSize, empty chunks in the middle
 	for _, h := range gen.HandFamily() {
 		cases = append(cases, c05Case{Kind: "hand", Hand: h.Label})
+	}
+	// decodable shard DAGs neither writer emits (mixed fanouts, zero bitfields,
+	// empty child shards)
+	for _, l := range gen.HandShardLabels() {
+		cases = append(cases, c05Case{Kind: "handshard", Hand: l})
 	}
 	usize := 8
 	fanouts := []int{8, 16, 256}
